@@ -319,11 +319,18 @@ func (r *Runner) Exec(line string) (lhs string, res string) {
 		}
 		return lhs, "ok"
 	case "rmidx":
+		// (index files are removed between sessions: under an open handle it would be tampering, not a history)
+		if sd.log != nil {
+			return lhs, "bad-op open"
+		}
 		for o := range parseOffsets(args[0]) {
 			_ = os.Remove(filepath.Join(sd.dir, fmt.Sprintf("%020d.index", o)))
 		}
 		return lhs, "ok"
 	case "pkgmigrate":
+		if sd.log != nil {
+			return lhs, "bad-op open"
+		}
 		m := kv(args)
 		v := klevdb.V2
 		if m["v"] == "1" {
